@@ -16,6 +16,7 @@ Proof.
   brk_hyp H; inversion H; subst; clear H.
   all: cbn [flat_map send_msgs app].
   all: cbn [op_ids].
+  all: pose proof (io_dg _ _ I) as [DG DGS].
   all: change (v_dict_brackets repaired) with false in *.
   all: (split; [ try solve [inv_tac I] | try solve [constructor] ]).
   all: try solve [ use_target L I; use_nodes L I; unfold pargroup_creation_cmd, group_creation_cmd, py_int in *;
@@ -40,6 +41,7 @@ Proof.
   brk_hyp H; inversion H; subst; clear H.
   all: cbn [flat_map send_msgs app].
   all: cbn [op_ids].
+  all: pose proof (io_dg _ _ I) as [DG DGS].
   all: change (v_dict_brackets repaired) with false in *.
   all: (split; [ try solve [inv_tac I] | try solve [constructor] ]).
   all: try solve [ use_target L I; use_nodes L I; unfold pargroup_creation_cmd, group_creation_cmd, py_int in *;
@@ -61,6 +63,7 @@ Proof.
   brk_hyp H; inversion H; subst; clear H.
   all: cbn [flat_map send_msgs app].
   all: cbn [op_ids].
+  all: pose proof (io_dg _ _ I) as [DG DGS].
   all: change (v_dict_brackets repaired) with false in *.
   all: (split; [ try solve [inv_tac I] | try solve [constructor] ]).
   all: try solve [ use_target L I; use_nodes L I; unfold pargroup_creation_cmd, group_creation_cmd, py_int in *;
@@ -82,6 +85,7 @@ Proof.
   brk_hyp H; inversion H; subst; clear H.
   all: cbn [flat_map send_msgs app].
   all: cbn [op_ids].
+  all: pose proof (io_dg _ _ I) as [DG DGS].
   all: change (v_dict_brackets repaired) with false in *.
   all: (split; [ try solve [inv_tac I] | try solve [constructor] ]).
   all: try solve [ use_target L I; use_nodes L I; unfold pargroup_creation_cmd, group_creation_cmd, py_int in *;
@@ -111,6 +115,7 @@ Proof.
   brk_hyp H; inversion H; subst; clear H.
   all: cbn [flat_map send_msgs app].
   all: cbn [op_ids].
+  all: pose proof (io_dg _ _ I) as [DG DGS].
   all: change (v_dict_brackets repaired) with false in *.
   all: (split; [ try solve [inv_tac I] | try solve [constructor] ]).
   all: try solve [ use_target L I; use_nodes L I; unfold pargroup_creation_cmd, group_creation_cmd, py_int in *;
@@ -141,6 +146,7 @@ Proof.
   brk_hyp H; inversion H; subst; clear H.
   all: cbn [flat_map send_msgs app].
   all: cbn [op_ids].
+  all: pose proof (io_dg _ _ I) as [DG DGS].
   all: change (v_dict_brackets repaired) with false in *.
   all: (split; [ try solve [inv_tac I] | try solve [constructor] ]).
   all: try solve [ use_target L I; use_nodes L I; unfold pargroup_creation_cmd, group_creation_cmd, py_int in *;
@@ -171,6 +177,7 @@ Proof.
   brk_hyp H; inversion H; subst; clear H.
   all: cbn [flat_map send_msgs app].
   all: cbn [op_ids].
+  all: pose proof (io_dg _ _ I) as [DG DGS].
   all: change (v_dict_brackets repaired) with false in *.
   all: (split; [ try solve [inv_tac I] | try solve [constructor] ]).
   all: try solve [ use_target L I; use_nodes L I; unfold pargroup_creation_cmd, group_creation_cmd, py_int in *;
@@ -201,6 +208,7 @@ Proof.
   brk_hyp H; inversion H; subst; clear H.
   all: cbn [flat_map send_msgs app].
   all: cbn [op_ids].
+  all: pose proof (io_dg _ _ I) as [DG DGS].
   all: change (v_dict_brackets repaired) with false in *.
   all: (split; [ try solve [inv_tac I] | try solve [constructor] ]).
   all: try solve [ use_target L I; use_nodes L I; unfold pargroup_creation_cmd, group_creation_cmd, py_int in *;
@@ -230,6 +238,7 @@ Proof.
   brk_hyp H; inversion H; subst; clear H.
   all: cbn [flat_map send_msgs app].
   all: cbn [op_ids].
+  all: pose proof (io_dg _ _ I) as [DG DGS].
   all: change (v_dict_brackets repaired) with false in *.
   all: (split; [ try solve [inv_tac I] | try solve [constructor] ]).
   all: try solve [ use_target L I; use_nodes L I; unfold pargroup_creation_cmd, group_creation_cmd, py_int in *;
@@ -251,6 +260,7 @@ Proof.
   brk_hyp H; inversion H; subst; clear H.
   all: cbn [flat_map send_msgs app].
   all: cbn [op_ids].
+  all: pose proof (io_dg _ _ I) as [DG DGS].
   all: change (v_dict_brackets repaired) with false in *.
   all: (split; [ try solve [inv_tac I] | try solve [constructor] ]).
   all: try solve [ use_target L I; use_nodes L I; unfold pargroup_creation_cmd, group_creation_cmd, py_int in *;
@@ -272,6 +282,7 @@ Proof.
   brk_hyp H; inversion H; subst; clear H.
   all: cbn [flat_map send_msgs app].
   all: cbn [op_ids].
+  all: pose proof (io_dg _ _ I) as [DG DGS].
   all: change (v_dict_brackets repaired) with false in *.
   all: (split; [ try solve [inv_tac I] | try solve [constructor] ]).
   all: try solve [ use_target L I; use_nodes L I; unfold pargroup_creation_cmd, group_creation_cmd, py_int in *;
@@ -293,6 +304,7 @@ Proof.
   brk_hyp H; inversion H; subst; clear H.
   all: cbn [flat_map send_msgs app].
   all: cbn [op_ids].
+  all: pose proof (io_dg _ _ I) as [DG DGS].
   all: change (v_dict_brackets repaired) with false in *.
   all: (split; [ try solve [inv_tac I] | try solve [constructor] ]).
   all: try solve [ use_target L I; use_nodes L I; unfold pargroup_creation_cmd, group_creation_cmd, py_int in *;
@@ -314,6 +326,7 @@ Proof.
   brk_hyp H; inversion H; subst; clear H.
   all: cbn [flat_map send_msgs app].
   all: cbn [op_ids].
+  all: pose proof (io_dg _ _ I) as [DG DGS].
   all: change (v_dict_brackets repaired) with false in *.
   all: (split; [ try solve [inv_tac I] | try solve [constructor] ]).
   all: try solve [ use_target L I; use_nodes L I; unfold pargroup_creation_cmd, group_creation_cmd, py_int in *;
@@ -335,6 +348,7 @@ Proof.
   brk_hyp H; inversion H; subst; clear H.
   all: cbn [flat_map send_msgs app].
   all: cbn [op_ids].
+  all: pose proof (io_dg _ _ I) as [DG DGS].
   all: change (v_dict_brackets repaired) with false in *.
   all: (split; [ try solve [inv_tac I] | try solve [constructor] ]).
   all: try solve [ use_target L I; use_nodes L I; unfold pargroup_creation_cmd, group_creation_cmd, py_int in *;
@@ -356,6 +370,7 @@ Proof.
   brk_hyp H; inversion H; subst; clear H.
   all: cbn [flat_map send_msgs app].
   all: cbn [op_ids].
+  all: pose proof (io_dg _ _ I) as [DG DGS].
   all: change (v_dict_brackets repaired) with false in *.
   all: (split; [ try solve [inv_tac I] | try solve [constructor] ]).
   all: try solve [ use_target L I; use_nodes L I; unfold pargroup_creation_cmd, group_creation_cmd, py_int in *;
@@ -377,6 +392,7 @@ Proof.
   brk_hyp H; inversion H; subst; clear H.
   all: cbn [flat_map send_msgs app].
   all: cbn [op_ids].
+  all: pose proof (io_dg _ _ I) as [DG DGS].
   all: change (v_dict_brackets repaired) with false in *.
   all: (split; [ try solve [inv_tac I] | try solve [constructor] ]).
   all: try solve [ use_target L I; use_nodes L I; unfold pargroup_creation_cmd, group_creation_cmd, py_int in *;
@@ -398,6 +414,7 @@ Proof.
   brk_hyp H; inversion H; subst; clear H.
   all: cbn [flat_map send_msgs app].
   all: cbn [op_ids].
+  all: pose proof (io_dg _ _ I) as [DG DGS].
   all: change (v_dict_brackets repaired) with false in *.
   all: (split; [ try solve [inv_tac I] | try solve [constructor] ]).
   all: try solve [ use_target L I; use_nodes L I; unfold pargroup_creation_cmd, group_creation_cmd, py_int in *;
@@ -419,6 +436,7 @@ Proof.
   brk_hyp H; inversion H; subst; clear H.
   all: cbn [flat_map send_msgs app].
   all: cbn [op_ids].
+  all: pose proof (io_dg _ _ I) as [DG DGS].
   all: change (v_dict_brackets repaired) with false in *.
   all: (split; [ try solve [inv_tac I] | try solve [constructor] ]).
   all: try solve [ use_target L I; use_nodes L I; unfold pargroup_creation_cmd, group_creation_cmd, py_int in *;
@@ -440,6 +458,7 @@ Proof.
   brk_hyp H; inversion H; subst; clear H.
   all: cbn [flat_map send_msgs app].
   all: cbn [op_ids].
+  all: pose proof (io_dg _ _ I) as [DG DGS].
   all: change (v_dict_brackets repaired) with false in *.
   all: (split; [ try solve [inv_tac I] | try solve [constructor] ]).
   all: try solve [ use_target L I; use_nodes L I; unfold pargroup_creation_cmd, group_creation_cmd, py_int in *;
@@ -461,6 +480,7 @@ Proof.
   brk_hyp H; inversion H; subst; clear H.
   all: cbn [flat_map send_msgs app].
   all: cbn [op_ids].
+  all: pose proof (io_dg _ _ I) as [DG DGS].
   all: change (v_dict_brackets repaired) with false in *.
   all: (split; [ try solve [inv_tac I] | try solve [constructor] ]).
   all: try solve [ use_target L I; use_nodes L I; unfold pargroup_creation_cmd, group_creation_cmd, py_int in *;
@@ -482,6 +502,7 @@ Proof.
   brk_hyp H; inversion H; subst; clear H.
   all: cbn [flat_map send_msgs app].
   all: cbn [op_ids].
+  all: pose proof (io_dg _ _ I) as [DG DGS].
   all: change (v_dict_brackets repaired) with false in *.
   all: (split; [ try solve [inv_tac I] | try solve [constructor] ]).
   all: try solve [ use_target L I; use_nodes L I; unfold pargroup_creation_cmd, group_creation_cmd, py_int in *;
@@ -503,16 +524,17 @@ Proof.
 
 Qed.
 
-Lemma og_OFreeDefaultGroup : forall n L s  s1 sends e,
-  InvO L s -> wf_op n s (OFreeDefaultGroup ) = true -> obj_step repaired s (OFreeDefaultGroup ) = (s1, sends, e) ->
-  InvO (op_ids s (OFreeDefaultGroup ) ++ L) s1 /\ Forall (Good (op_ids s (OFreeDefaultGroup ) ++ L)) (flat_map send_msgs sends).
+Lemma og_OFreeDefaultGroup : forall n L s a0 s1 sends e,
+  InvO L s -> wf_op n s (OFreeDefaultGroup a0) = true -> obj_step repaired s (OFreeDefaultGroup a0) = (s1, sends, e) ->
+  InvO (op_ids s (OFreeDefaultGroup a0) ++ L) s1 /\ Forall (Good (op_ids s (OFreeDefaultGroup a0) ++ L)) (flat_map send_msgs sends).
 Proof.
-  intros n L s  s1 sends e I Hw H.
+  intros n L s a0 s1 sends e I Hw H.
   cbn [wf_op] in Hw; try discriminate Hw; split_ands.
   unfold obj_step, ok, fail in H.
   brk_hyp H; inversion H; subst; clear H.
   all: cbn [flat_map send_msgs app].
   all: cbn [op_ids].
+  all: pose proof (io_dg _ _ I) as [DG DGS].
   all: change (v_dict_brackets repaired) with false in *.
   all: (split; [ try solve [inv_tac I] | try solve [constructor] ]).
   all: try solve [ use_target L I; use_nodes L I; unfold pargroup_creation_cmd, group_creation_cmd, py_int in *;
@@ -521,6 +543,11 @@ Proof.
                    repeat match goal with G : get_buf _ _ = Some _ |- _ => use_buf L I G end;
                    ions; brk_eqs; goods ].
   all: try solve [ bools; brk_eqs; toks; match goal with G : get_bus _ _ = Some _ |- _ => use_bus L I G end; ions; brk_eqs; goods ].
+  all: match goal with |- Forall _ (flat_map send_msgs (map (fun g => SMsg (@?f g)) ?l)) => rewrite (flat_map_smsg f l) end.
+  all: apply Forall_forall; intros m Hm; apply in_map_iff in Hm; destruct Hm as [g [Em Hg]]; subst m.
+  all: try (destruct Hg as [Hg|[]]; subst g).
+  all: try (pose proof (DGS g Hg)).
+  all: good_fixed.
 
 Qed.
 
@@ -534,6 +561,7 @@ Proof.
   brk_hyp H; inversion H; subst; clear H.
   all: cbn [flat_map send_msgs app].
   all: cbn [op_ids].
+  all: pose proof (io_dg _ _ I) as [DG DGS].
   all: change (v_dict_brackets repaired) with false in *.
   all: (split; [ try solve [inv_tac I] | try solve [constructor] ]).
   all: try solve [ use_target L I; use_nodes L I; unfold pargroup_creation_cmd, group_creation_cmd, py_int in *;
@@ -542,6 +570,11 @@ Proof.
                    repeat match goal with G : get_buf _ _ = Some _ |- _ => use_buf L I G end;
                    ions; brk_eqs; goods ].
   all: try solve [ bools; brk_eqs; toks; match goal with G : get_bus _ _ = Some _ |- _ => use_bus L I G end; ions; brk_eqs; goods ].
+  all: match goal with |- Forall _ (flat_map send_msgs (map (fun g => SMsg (@?f g)) ?l)) => rewrite (flat_map_smsg f l) end.
+  all: apply Forall_forall; intros m Hm; apply in_map_iff in Hm; destruct Hm as [g [Em Hg]]; subst m.
+  all: try (destruct Hg as [Hg|[]]; subst g).
+  all: try (pose proof (DGS g Hg)).
+  all: good_fixed.
 
 Qed.
 
@@ -555,6 +588,7 @@ Proof.
   brk_hyp H; inversion H; subst; clear H.
   all: cbn [flat_map send_msgs app].
   all: cbn [op_ids].
+  all: pose proof (io_dg _ _ I) as [DG DGS].
   all: change (v_dict_brackets repaired) with false in *.
   all: (split; [ try solve [inv_tac I] | try solve [constructor] ]).
   all: try solve [ use_target L I; use_nodes L I; unfold pargroup_creation_cmd, group_creation_cmd, py_int in *;
@@ -576,6 +610,7 @@ Proof.
   brk_hyp H; inversion H; subst; clear H.
   all: cbn [flat_map send_msgs app].
   all: cbn [op_ids].
+  all: pose proof (io_dg _ _ I) as [DG DGS].
   all: change (v_dict_brackets repaired) with false in *.
   all: (split; [ try solve [inv_tac I] | try solve [constructor] ]).
   all: try solve [ use_target L I; use_nodes L I; unfold pargroup_creation_cmd, group_creation_cmd, py_int in *;
@@ -598,6 +633,7 @@ Proof.
   brk_hyp H; inversion H; subst; clear H.
   all: cbn [flat_map send_msgs app].
   all: cbn [op_ids].
+  all: pose proof (io_dg _ _ I) as [DG DGS].
   all: change (v_dict_brackets repaired) with false in *.
   all: (split; [ try solve [inv_tac I] | try solve [constructor] ]).
   all: try solve [ use_target L I; use_nodes L I; unfold pargroup_creation_cmd, group_creation_cmd, py_int in *;
